@@ -67,20 +67,34 @@ def run(facts, tier):
     # ---------------- L3.1 forcing-site discipline
     l1 = Rule("L3.1", "forcing-site discipline: code that runs when a filter's output iterator is *constructed* (natives, the interpreter, their helpers) and the command-line driver consume a value stream only at the reviewed sites of tables/forcing_sites.json (e.g. `[f]` collects, `//` looks at the left operand, `last` folds, sorting collects keys, the single-output fast path); any new collect/count/peek/next at construction time is reported", floor=25)
     tab = json.load(open(os.path.join(VERIF, "rules", "tables", "forcing_sites.json")))["entries"]
+    # reviewed per source file (where the reasons were written), evaluated per crate: moving a function between
+    # files of a crate is not a new forcing site
+    crate_of = lambda f: f.split("/")[0]
     reviewed = {(e["file"], e["method"]): e for e in tab}
+    reviewed_crate = collections.Counter()
+    for e in tab:
+        reviewed_crate[(crate_of(e["file"]), e["method"])] += e["count"]
     seen, sites = forcing_sites(g, (native | interp | driver) - repl, repl)
+    found_crate = collections.Counter()
     for key, ss in sorted(sites.items()):
         e = reviewed.get(key)
-        n = len(ss)
+        found_crate[(crate_of(key[0]), key[1])] += len(ss)
         for s in ss:
             l1.examined((key, s), True)
         if len(l1.samples) < 5 and e:
-            l1.samples.append({"file": key[0], "consumer": key[1], "sites": n, "reason": e["reason"][:140]})
+            l1.samples.append({"file": key[0], "consumer": key[1], "sites": len(ss), "reason": e["reason"][:140]})
+    for ck, n in sorted(found_crate.items()):
+        r_ = reviewed_crate.get(ck, 0)
+        if n <= r_:
+            continue
+        over = [k for k in sorted(sites) if (crate_of(k[0]), k[1]) == ck and len(sites[k]) > (reviewed[k]["count"] if k in reviewed else 0)]
+        k0 = over[0]
+        ss = sites[k0]
         callers = sorted({c for c, sp in ss})
-        if e is None:
-            l1.violate(f"{key[0]}/{key[1]}", f"new construction-time forcing of a stream: `{key[1]}` in {key[0]} (in {callers}); the stream is consumed before its outputs are demanded", where=sorted(ss)[0][1], detail=sorted(ss))
-        elif n > e["count"]:
-            l1.violate(f"{key[0]}/{key[1]}/count", f"{n - e['count']} new construction-time forcing site(s) `{key[1]}` in {key[0]}: {n} found, {e['count']} reviewed (callers {callers})", where=sorted(ss)[-1][1], detail=sorted(ss))
+        if r_ == 0:
+            l1.violate(f"{ck[0]}/{ck[1]}", f"new construction-time forcing of a stream: `{ck[1]}` in {k0[0]} (in {callers}); the stream is consumed before its outputs are demanded", where=sorted(ss)[0][1], detail=sorted(ss))
+        else:
+            l1.violate(f"{ck[0]}/{ck[1]}/count", f"{n - r_} new construction-time forcing site(s) `{ck[1]}` in crate {ck[0]} ({', '.join(k[0] for k in over)}): {n} found, {r_} reviewed (callers {callers})", where=sorted(ss)[-1][1], detail=sorted(ss))
     l1.notes.append(f"construction-time region: {len(seen)} instances")
     if len(seen) < 5000:
         l1.violate("region", f"construction-time region has only {len(seen)} instances (roots lost?)")
